@@ -81,7 +81,15 @@ TToAscii ==
                ELSE Diag([l |-> l, who |-> "a", kind |-> "urlhost", props |-> << "C06" >>,
                           expok |-> hp.ok, exp |-> hp.host.s, gotok |-> Ev.host.v, got |-> Ev.host.s,
                           relaxed |-> relaxed /\ Ev.host.v = Ev.ok /\ (Ev.ok => Ev.host.s = Ev.a)])
-     IN /\ ndiag' = ndiag + d1 + d2 + d3 + d4
+         \* RFC 3492 without any Unicode table: a single label of letters that the generator guarantees to be
+         \* unmapped and NFC-stable (lower-case Latin-1 / Greek / Cyrillic / kana / CJK + [a-z0-9-]) must, when it is
+         \* accepted, be exactly "xn--" + the specification's Punycode encoding of its own code points
+         d5 == IF ~Ev.plain \/ ~Ev.ok \/ ~ValidUtf8(inp) THEN 0
+               ELSE LET cps == Utf8Decode(inp)
+                        want == IF \A i \in 1..Len(cps) : cps[i] < 128 THEN LowerStr(inp) ELSE XnPrefix \o PunyEncode(cps)
+                    IN IF Ev.a = want THEN 0
+                       ELSE Diag([l |-> l, who |-> "a", kind |-> "punycode", props |-> << "C06" >>, exp |-> want, got |-> Ev.a])
+     IN /\ ndiag' = ndiag + d1 + d2 + d3 + d4 + d5
         /\ nunspec' = nunspec + (IF r.unspec THEN 1 ELSE 0)
   /\ l' = l + 1
 
